@@ -50,9 +50,36 @@ var vfSAR2L = map[string]string{"remote-attr": "local-attr", "remote-attr-2": "l
 // vfDirectionRun drives every unary method of both services through both servers of one connection.
 // part selects which translation the violations are attributed to: "ns" (C13) or "sa" (C14).
 func vfDirectionRun(res *vrt.Result, part string) (evals, nontrivial int64) {
-	cl, err := vfStartCluster(vfTranslationConfig())
+	// both translations configured, and the one under test configured alone (the other translation absent)
+	variants := []string{"both"}
+	if strings.Contains(part, "ns") {
+		variants = append(variants, "ns-only")
+	}
+	if strings.Contains(part, "sa") {
+		variants = append(variants, "sa-only")
+	}
+	for _, v := range variants {
+		e, n := vfDirectionRunCfg(res, part, v)
+		evals += e
+		nontrivial += n
+	}
+	return
+}
+
+func vfDirectionRunCfg(res *vrt.Result, part, variant string) (evals, nontrivial int64) {
+	cfg := vfTranslationConfig()
+	nsOn, saOn := true, true
+	switch variant {
+	case "ns-only":
+		cfg.SearchAttributeTranslation = config.SATranslationConfig{}
+		saOn = false
+	case "sa-only":
+		cfg.NamespaceTranslation = config.StringTranslator{}
+		nsOn = false
+	}
+	cl, err := vfStartCluster(cfg)
 	if err != nil {
-		res.Violate("wiring/cluster-connection-fails", err.Error(), nil)
+		res.Violate("wiring/cluster-connection-fails", variant+": "+err.Error(), nil)
 		return
 	}
 	defer cl.Close()
@@ -73,6 +100,13 @@ func vfDirectionRun(res *vrt.Result, part string) (evals, nontrivial int64) {
 	}
 	for _, sd := range sides {
 		sd := sd
+		if !nsOn {
+			sd.reqNS, sd.respNS = map[string]string{}, map[string]string{}
+		}
+		if !saOn {
+			sd.reqSA, sd.respSA = map[string]string{}, map[string]string{}
+		}
+		sd.name = sd.name + " [configured: " + variant + "]"
 		sd.backend.Respond = func(method string, req, resp proto.Message) {
 			mi := vfMethodTable[method]
 			proto.Merge(resp, vrt.PopulateNamesSA(mi.Out.Descriptor(), sd.beNS, sd.beSA))
